@@ -769,7 +769,7 @@ func init() {
 		Streams: []*vf.Stream{
 			serial("strings", 60000, 600000, c08stringCase),
 			serial("convertbits", 20000, 400000, c08convertBitsCase),
-			serial("blocks-txs", 20000, 400000, c08blockCase),
+			serial("blocks-txs", 20000, 150000, c08blockCase),
 			serial("bloom", 60000, 400000, c08bloomCase),
 			serial("merkle", 80000, 800000, c08merkleCase),
 			serial("gcs", 90000, 600000, c08gcsCase),
